@@ -40,6 +40,13 @@ func c18Source(soft bool, shape string) j.Resource { return c18SourceV(soft, sha
 // variant 1: byte strings that are empty but not nil (they marshal as "", not as null)
 func c18SourceV(soft bool, shape string, variant int) j.Resource {
 	r := c18SourceV0(soft, shape)
+	if variant == 1 && !soft {
+		// the struct was filled in by the program before it was wrapped: its ID (with blanks at
+		// both ends) never went through Set
+		ptr := reflect.New(c18TypeD(shape).StructType())
+		ptr.Elem().FieldByName("ID").SetString(" padded id\t")
+		r = c18Fill(j.Wrap(ptr.Interface()), false)
+	}
 	if variant == 1 {
 		c18SetIf(r, "y", []byte{})
 		py := []byte{}
@@ -47,6 +54,9 @@ func c18SourceV(soft bool, shape string, variant int) j.Resource {
 		c18SetIf(r, "ps", Ptr(""))
 		c18SetIf(r, "pi", Ptr(int(0)))
 		c18SetIf(r, "many", []string{})
+		if soft {
+			r.Set("id", " padded id\t")
+		}
 		// the zero instant, read in a zone, and a pointer to it: values like any other
 		c18SetIf(r, "w", time.Time{}.In(zPlus))
 		c18SetIf(r, "pw", Ptr(time.Time{}))
@@ -55,8 +65,13 @@ func c18SourceV(soft bool, shape string, variant int) j.Resource {
 }
 
 func c18SourceV0(soft bool, shape string) j.Resource {
-	r := c18TypeD(shape).NewRes(soft)
-	r.Set("id", "src")
+	return c18Fill(c18TypeD(shape).NewRes(soft), true)
+}
+
+func c18Fill(r j.Resource, setID bool) j.Resource {
+	if setID {
+		r.Set("id", "src")
+	}
 	c18SetIf(r, "s", "v")
 	c18SetIf(r, "y", []byte{3, 1, 2})
 	py := []byte{4, 5}
@@ -330,6 +345,9 @@ func c18BFSMode(c *Ctx, soft bool, how, shape string, eager bool) *mc.BFS {
 	if eager {
 		depth--
 		name += "-read-around-every-step"
+	} else if how == "New" && !Thorough() {
+		// a zero-valued sibling shares less with its source than a copy: one level less in the quick tier
+		depth--
 	}
 	muts := c18Muts()
 	return &mc.BFS{
@@ -413,7 +431,7 @@ func renderType(t j.Type) string {
 	return renderTypes([]string{t.Name}, []map[string]j.Attr{t.Attrs}, []map[string]j.Rel{t.Rels})
 }
 
-var c18TypeOps = []string{"AddAttr(new)", "RemoveAttr(s)", "AddRel(new)", "RemoveRel(many)", "RemoveAttr(new)"}
+var c18TypeOps = []string{"AddAttr(new)", "RemoveAttr(s)", "AddRel(new)", "RemoveRel(many)", "RemoveAttr(new)", "New() then AddAttr(vianew) / RemoveField(y) through the new resource"}
 
 func (y *c18TypeSys) Key() string { return renderType(y.src) + "||" + renderType(y.cpy) }
 
@@ -441,6 +459,12 @@ func (y *c18TypeSys) Apply(op int) (fails []mc.Violation, fatal bool) {
 			target.RemoveRel("many")
 		case 4:
 			target.RemoveAttr("new")
+		case 5:
+			// a resource created from this type edits its own type: that is this type, not the other one
+			if sr, ok := target.New().(*j.SoftResource); ok {
+				sr.AddAttr(j.Attr{Name: "vianew", Type: j.AttrTypeBool})
+				sr.RemoveField("y")
+			}
 		}
 	}); p != "" {
 		return []mc.Violation{{Sig: "C18:type-copy:panic", Msg: name + " panicked: " + p}}, true
@@ -462,7 +486,7 @@ func c18TypeBFS(c *Ctx, shape string) *mc.BFS {
 			return "source: " + c18TypeOps[i]
 		},
 		New: func() mc.System {
-			src := c18TypeD(strings.TrimSuffix(shape, "+keys-differ")).SoftType()
+			src := c18TypeD(strings.TrimSuffix(strings.TrimSuffix(shape, "+keys-differ"), "+used")).SoftType()
 			if strings.HasSuffix(shape, "+keys-differ") {
 				// maps built by hand: the keys are not the fields' names, and two keys hold
 				// definitions with one name
@@ -479,7 +503,11 @@ func c18TypeBFS(c *Ctx, shape string) *mc.BFS {
 				src.Attrs, src.Rels = attrs, rels
 			}
 			y := &c18TypeSys{src: src}
-			if p := Try(func() { y.cpy = src.Copy() }); p != "" {
+			if strings.HasSuffix(shape, "+used") {
+				// the source type has already produced a resource before it is copied
+				_ = y.src.New()
+			}
+			if p := Try(func() { y.cpy = y.src.Copy() }); p != "" {
 				y.initDiff = "panic: " + p
 			} else if renderType(y.src) != renderType(y.cpy) {
 				y.initDiff = fmt.Sprintf("source [%s], copy [%s]", renderType(y.src), renderType(y.cpy))
@@ -611,7 +639,7 @@ func init() {
 			}
 		}
 	}
-	for _, shape := range append(append([]string{}, c18Shapes...), "full+keys-differ") {
+	for _, shape := range append(append([]string{}, c18Shapes...), "full+keys-differ", "full+used") {
 		shape := shape
 		hs = append(hs, Harness{Name: "C18/type-copy-" + shape,
 			Custom:       func(c *Ctx) { c18TypeBFS(c, shape).Explore(); c.R.Sets["nontrivial"] = c.R.Sets["states"] },
@@ -622,7 +650,7 @@ func init() {
 		Harness{Name: "C18/first-wrapper", Body: c18FirstWrapper}, Harness{Name: "C18/soft-newfunc", Body: c18SoftNewFunc})
 	Register(&Prop{
 		ID: "C18",
-		Rule: "Engine B: for {soft, wrapped} x {Copy(), New()} (soft also for a type without relationships and a type without attributes, wrapped also for a struct with plain-value attributes only) a source resource holding a byte string, a pointer to a byte string, nullable pointers, a time and an unsorted 3-element to-many list and a 1-element to-many list is derived, then ALL histories (depth <= 3 quick / 4 thorough) of 22 mutations applied to either side plus the operation 'read everything from both' (Set of several fields and id, AddAttr/AddRel/RemoveField on its type, edits through the soft resource's exported Type pointer, deleting from / adding to the maps returned by Attrs(), Rels() and GetType(), MarshalResource with relationship data (sorts in place), Filter '=' on the to-many (sorts in place), writing element 0 of the slices obtained from Get for []byte, []string and *[]byte, appending to a slice obtained from Get and storing it back) are explored with deep-snapshot de-duplication; nothing is read between the operations of a history (reading is an operation; a second, one level shallower search reads both sides around every step): after the last mutation everything readable from the OTHER side must equal what an equal pair that underwent all but that mutation shows. Same for Type.Copy under AddAttr/RemoveAttr/AddRel/RemoveRel (also for a type whose map keys are not its fields' names). Engine A: the derived object right after derivation equals its source and marshals identically, also when its byte strings are empty but non-nil (Copy) / is zero-valued (New). Every state is a distinct pair of heaps",
+		Rule: "Engine B: for {soft, wrapped} x {Copy(), New()} (soft also for a type without relationships and a type without attributes, wrapped also for a struct with plain-value attributes only) a source resource holding a byte string, a pointer to a byte string, nullable pointers, a time and an unsorted 3-element to-many list and a 1-element to-many list is derived, then ALL histories (depth <= 3 quick - 2 for New() - / 4 thorough) of 22 mutations applied to either side plus the operation 'read everything from both' (Set of several fields and id, AddAttr/AddRel/RemoveField on its type, edits through the soft resource's exported Type pointer, deleting from / adding to the maps returned by Attrs(), Rels() and GetType(), MarshalResource with relationship data (sorts in place), Filter '=' on the to-many (sorts in place), writing element 0 of the slices obtained from Get for []byte, []string and *[]byte, appending to a slice obtained from Get and storing it back) are explored with deep-snapshot de-duplication; nothing is read between the operations of a history (reading is an operation; a second, one level shallower search reads both sides around every step): after the last mutation everything readable from the OTHER side must equal what an equal pair that underwent all but that mutation shows. Same for Type.Copy under AddAttr/RemoveAttr/AddRel/RemoveRel (also for a type whose map keys are not its fields' names and for a type that has already produced a resource; one operation edits a type through a resource created from it). Engine A: the derived object right after derivation equals its source and marshals identically, also when its byte strings are empty but non-nil (Copy) / is zero-valued (New). Every state is a distinct pair of heaps",
 		Assumptions: []string{"writing through a nullable pointer obtained from Get (other than the slice behind *[]byte) is not judged: the statement lists slices only"},
 		Harnesses: hs,
 	})
